@@ -46,7 +46,7 @@ type Case struct {
 	Route     string `json:"route"` // sys | ctx | typed | typedctx
 	K         int    `json:"k"`     // concurrent askers (goroutines for sys/typed, asker actors for ctx/typedctx)
 	N         int    `json:"n"`     // asks per asker
-	Beh       string `json:"beh"`   // echo | delay | never | error | twice | race
+	Beh       string `json:"beh"`   // echo | delay | never | error | fwderror (error piped through another future's Forward) | twice | race
 	TimeoutMs int    `json:"timeout_ms"`
 	DelayMs   int    `json:"delay_ms"`
 	// observed
@@ -70,6 +70,9 @@ type repMsg struct {
 	Second bool
 }
 type seqErr struct{ Seq int64 }
+type innerReq struct{ Seq int64 }
+
+func isErrBeh(b string) bool { return b == "error" || b == "fwderror" }
 
 func (e *seqErr) Error() string { return fmt.Sprintf("scripted error reply %d", e.Seq) }
 
@@ -156,6 +159,14 @@ func (t *target) OnReceive(ctx vivid.ActorContext) {
 			ctx.Reply(&repMsg{Seq: m.Seq, Second: true})
 		case "error":
 			reply(func() { ctx.Reply(&seqErr{Seq: m.Seq}) })
+		case "fwderror":
+			// the error reaches the asker's future through another future's Forward, which delivers it as it is (not
+			// wrapped): the target asks itself, fails that inner ask with an error reply and pipes it to the asker
+			sender := ctx.Sender()
+			reply(func() {
+				inner := ctx.FutureAsk(ctx.Ref(), &innerReq{Seq: m.Seq}, 2*time.Second)
+				inner.Forward(sender)
+			})
 		case "never":
 		case "delay", "race":
 			sender := ctx.Sender()
@@ -166,6 +177,8 @@ func (t *target) OnReceive(ctx vivid.ActorContext) {
 				reply(func() { ctx.Ask(sender, &repMsg{Seq: m.Seq}) })
 			}()
 		}
+	case *innerReq:
+		ctx.Reply(&seqErr{Seq: m.Seq})
 	case *syncMsg:
 		close(m.ch)
 	case nil:
@@ -379,7 +392,7 @@ func runCase(c *Case) (viol []vh.Violation) {
 		switch {
 		case rec.outcome == "hang" || rec.outcome == "foreign" || rec.outcome == "panic" || rec.outcome == "other" || rec.outcome == "errmsg":
 			abort.Store(true)
-		case (c.Beh == "echo" || c.Beh == "twice" || c.Beh == "error") && rec.outcome != "own" && rec.outcome != "errreply":
+		case (c.Beh == "echo" || c.Beh == "twice" || isErrBeh(c.Beh)) && rec.outcome != "own" && rec.outcome != "errreply":
 			abort.Store(true)
 		}
 		mu.Lock()
@@ -516,11 +529,11 @@ func runCase(c *Case) (viol []vh.Violation) {
 			if class == "none" || class == "after" {
 				add("future:ask:invented-reply", fmt.Sprintf("request %d completed with a reply although none had been sent yet", r.seq))
 			}
-			if c.Beh == "error" {
+			if isErrBeh(c.Beh) {
 				add("future:ask:error-reply-not-failed", fmt.Sprintf("request %d: error reply completed the ask successfully", r.seq))
 			}
 		case "errreply":
-			if c.Beh != "error" {
+			if !isErrBeh(c.Beh) {
 				add("future:ask:unexpected-result", fmt.Sprintf("request %d failed with an error reply nobody sent", r.seq))
 			}
 		case "timeout", "msg+timeout":
@@ -640,7 +653,7 @@ func runCaseSafe(c *Case, dir string) []vh.Violation {
 // ---------------------------------------------------------------- Coq term
 
 func coqBeh(b string) string {
-	return map[string]string{"echo": "BEcho", "delay": "BDelay", "never": "BNever", "error": "BError", "twice": "BTwice", "race": "BRace"}[b]
+	return map[string]string{"echo": "BEcho", "delay": "BDelay", "never": "BNever", "error": "BError", "fwderror": "BError", "twice": "BTwice", "race": "BRace"}[b]
 }
 func coqClass(s string) string {
 	return map[string]string{"before": "KBefore", "after": "KAfter", "near": "KNear", "none": "KNone"}[s]
@@ -675,9 +688,11 @@ func gen(rng *vh.RNG, tier string) []*Case {
 	cs = append(cs, &Case{Route: "typed", K: 1, N: 3, Beh: "echo", TimeoutMs: 300})
 	cs = append(cs, &Case{Route: "typedctx", K: 1, N: 3, Beh: "echo", TimeoutMs: 300})
 	cs = append(cs, &Case{Route: "sys", K: 1, N: 3, Beh: "error", TimeoutMs: 300})
+	cs = append(cs, &Case{Route: "sys", K: 1, N: 3, Beh: "fwderror", TimeoutMs: 1000})
+	cs = append(cs, &Case{Route: "ctx", K: 2, N: 5, Beh: "fwderror", TimeoutMs: 1000})
 	ks := []int{1, 2, 8, 16}
 	routes := []string{"sys", "ctx", "typed", "typedctx"}
-	behs := []string{"echo", "delay", "never", "error", "twice", "race"}
+	behs := []string{"echo", "delay", "never", "error", "fwderror", "twice", "race"}
 	rounds := 1
 	if tier == "thorough" {
 		rounds = 8
@@ -688,7 +703,7 @@ func gen(rng *vh.RNG, tier string) []*Case {
 				for _, b := range behs {
 					c := &Case{Route: route, K: k, Beh: b}
 					switch b {
-					case "echo", "twice", "error":
+					case "echo", "twice", "error", "fwderror":
 						c.TimeoutMs = []int{500, 1000, 2000}[rng.Intn(3)]
 						c.N = rng.Range(20, 60)
 						if tier == "thorough" {
